@@ -12,7 +12,7 @@ import sys
 import tempfile
 
 HERE = os.path.dirname(os.path.dirname(os.path.abspath(__file__)))
-SEED = '/tmp/seed'
+SEED = os.environ.get('SEED_DIR', '/tmp/seed')
 
 
 def sh(cmd, **kw):
